@@ -112,7 +112,33 @@ def access_paths(tf, ch, lazy, has_scaling_ok):
                     raise AssertionError('len(file chunk) %d but it holds %d values' % (len(c), parts[-1][1]))
                 off += parts[-1][1]
             return concat(parts)
-        out += [('channel-chunks', chan_chunks), ('file-chunks', file_chunks)]
+
+        # the same streams consumed the other way round: all chunks are collected first (list(...)) and looked at afterwards -
+        # a chunk and the array it handed out must stay what they were when the iterator moves on
+        def chan_chunks_kept():
+            kept = [(c, c[:]) for c in ch.data_chunks()]
+            parts, off = [], 0
+            for c, arr in kept:
+                if c.offset != off:
+                    raise AssertionError('kept chunk offset %d, running count %d' % (c.offset, off))
+                parts.append(N(arr))
+                if N(c[:]) != parts[-1]:
+                    raise AssertionError('a chunk read again after the iterator advanced holds other values')
+                off += parts[-1][1]
+            return concat(parts)
+
+        def file_chunks_kept():
+            kept = list(tf.data_chunks())
+            parts, off = [], 0
+            for dc in kept:
+                c = dc[ch.group_name][ch.name]
+                if c.offset != off:
+                    raise AssertionError('kept file chunk offset %d, running count %d' % (c.offset, off))
+                parts.append(N(c[:]))
+                off += parts[-1][1]
+            return concat(parts)
+        out += [('channel-chunks', chan_chunks), ('file-chunks', file_chunks), ('channel-chunks-kept', chan_chunks_kept),
+                ('file-chunks-kept', file_chunks_kept)]
     return out
 
 
